@@ -3,7 +3,7 @@
 # Applies a change to a scratch worktree of /repo (never to /repo itself), runs the given checks
 # against it through VERIF_REPO, prints one line per check, removes the worktree.
 set -u
-name=$1; change=$2; propsl=$3; tier=${4:-quick}
+name=$1; change=$2; [[ $change != revert:* ]] && change=$(realpath $change); propsl=$3; tier=${4:-quick}
 wt=/tmp/mut-$name
 git -C /repo worktree remove --force $wt >/dev/null 2>&1
 git -C /repo worktree add --detach $wt HEAD >/dev/null 2>&1 || { echo "worktree failed"; exit 2; }
